@@ -91,3 +91,14 @@
 ; p10(n) = 10^n for 0 <= n <= 78 (table)
 (define-fun p10 ((n Int)) Int
   (ite (< n 0) 1 (ite (= n 0) 1 (ite (= n 1) 10 (ite (= n 2) 100 (ite (= n 3) 1000 (ite (= n 4) 10000 (ite (= n 5) 100000 (ite (= n 6) 1000000 (ite (= n 7) 10000000 (ite (= n 8) 100000000 (ite (= n 9) 1000000000 (ite (= n 10) 10000000000 (ite (= n 11) 100000000000 (ite (= n 12) 1000000000000 (ite (= n 13) 10000000000000 (ite (= n 14) 100000000000000 (ite (= n 15) 1000000000000000 (ite (= n 16) 10000000000000000 (ite (= n 17) 100000000000000000 (ite (= n 18) 1000000000000000000 (ite (= n 19) 10000000000000000000 (ite (= n 20) 100000000000000000000 (ite (= n 21) 1000000000000000000000 (ite (= n 22) 10000000000000000000000 (ite (= n 23) 100000000000000000000000 (ite (= n 24) 1000000000000000000000000 (ite (= n 25) 10000000000000000000000000 (ite (= n 26) 100000000000000000000000000 (ite (= n 27) 1000000000000000000000000000 (ite (= n 28) 10000000000000000000000000000 (ite (= n 29) 100000000000000000000000000000 (ite (= n 30) 1000000000000000000000000000000 (ite (= n 31) 10000000000000000000000000000000 (ite (= n 32) 100000000000000000000000000000000 (ite (= n 33) 1000000000000000000000000000000000 (ite (= n 34) 10000000000000000000000000000000000 (ite (= n 35) 100000000000000000000000000000000000 (ite (= n 36) 1000000000000000000000000000000000000 (ite (= n 37) 10000000000000000000000000000000000000 (ite (= n 38) 100000000000000000000000000000000000000 (ite (= n 39) 1000000000000000000000000000000000000000 (ite (= n 40) 10000000000000000000000000000000000000000 (ite (= n 41) 100000000000000000000000000000000000000000 (ite (= n 42) 1000000000000000000000000000000000000000000 (ite (= n 43) 10000000000000000000000000000000000000000000 (ite (= n 44) 100000000000000000000000000000000000000000000 (ite (= n 45) 1000000000000000000000000000000000000000000000 (ite (= n 46) 10000000000000000000000000000000000000000000000 (ite (= n 47) 100000000000000000000000000000000000000000000000 (ite (= n 48) 1000000000000000000000000000000000000000000000000 (ite (= n 49) 10000000000000000000000000000000000000000000000000 (ite (= n 50) 100000000000000000000000000000000000000000000000000 (ite (= n 51) 1000000000000000000000000000000000000000000000000000 (ite (= n 52) 10000000000000000000000000000000000000000000000000000 (ite (= n 53) 100000000000000000000000000000000000000000000000000000 (ite (= n 54) 1000000000000000000000000000000000000000000000000000000 (ite (= n 55) 10000000000000000000000000000000000000000000000000000000 (ite (= n 56) 100000000000000000000000000000000000000000000000000000000 (ite (= n 57) 1000000000000000000000000000000000000000000000000000000000 (ite (= n 58) 10000000000000000000000000000000000000000000000000000000000 (ite (= n 59) 100000000000000000000000000000000000000000000000000000000000 (ite (= n 60) 1000000000000000000000000000000000000000000000000000000000000 (ite (= n 61) 10000000000000000000000000000000000000000000000000000000000000 (ite (= n 62) 100000000000000000000000000000000000000000000000000000000000000 (ite (= n 63) 1000000000000000000000000000000000000000000000000000000000000000 (ite (= n 64) 10000000000000000000000000000000000000000000000000000000000000000 (ite (= n 65) 100000000000000000000000000000000000000000000000000000000000000000 (ite (= n 66) 1000000000000000000000000000000000000000000000000000000000000000000 (ite (= n 67) 10000000000000000000000000000000000000000000000000000000000000000000 (ite (= n 68) 100000000000000000000000000000000000000000000000000000000000000000000 (ite (= n 69) 1000000000000000000000000000000000000000000000000000000000000000000000 (ite (= n 70) 10000000000000000000000000000000000000000000000000000000000000000000000 (ite (= n 71) 100000000000000000000000000000000000000000000000000000000000000000000000 (ite (= n 72) 1000000000000000000000000000000000000000000000000000000000000000000000000 (ite (= n 73) 10000000000000000000000000000000000000000000000000000000000000000000000000 (ite (= n 74) 100000000000000000000000000000000000000000000000000000000000000000000000000 (ite (= n 75) 1000000000000000000000000000000000000000000000000000000000000000000000000000 (ite (= n 76) 10000000000000000000000000000000000000000000000000000000000000000000000000000 (ite (= n 77) 100000000000000000000000000000000000000000000000000000000000000000000000000000 1000000000000000000000000000000000000000000000000000000000000000000000000000000))))))))))))))))))))))))))))))))))))))))))))))))))))))))))))))))))))))))))))))))
+; cmpmag(cd, ed, co, eo) = sign of cd*10^ed - co*10^eo for coefficients 0 <= cd, co < 10^38:
+; the larger exponent's coefficient is scaled by the exact power of ten (table p10) when the gap is
+; at most 38; beyond that the operand with the larger exponent is larger (both coefficients nonzero).
+(define-fun cmpmag ((cd Int) (ed Int) (co Int) (eo Int)) Int
+  (ite (= cd 0) (ite (= co 0) 0 (- 1))
+  (ite (= co 0) 1
+  (ite (>= ed eo)
+       (ite (> (- ed eo) 38) 1
+            (ite (> (* cd (p10 (- ed eo))) co) 1 (ite (= (* cd (p10 (- ed eo))) co) 0 (- 1))))
+       (ite (> (- eo ed) 38) (- 1)
+            (ite (> (* co (p10 (- eo ed))) cd) (- 1) (ite (= (* co (p10 (- eo ed))) cd) 0 1)))))))
